@@ -799,7 +799,11 @@ func (f *fragment) setRow(row *Row, rowID uint64) (bool, error) {
 	if mustClose {
 		defer f.safeClose()
 	}
-	return f.unprotectedSetRow(row, rowID)
+	changed, err := f.unprotectedSetRow(row, rowID)
+	// The change is not in the op log: it is only durable (and may only be
+	// acknowledged) once the requested snapshot has been written.
+	f.unprotectedAwaitSnapshot()
+	return changed, err
 }
 
 func (f *fragment) unprotectedSetRow(row *Row, rowID uint64) (changed bool, err error) {
@@ -865,7 +869,11 @@ func (f *fragment) clearRow(rowID uint64) (bool, error) {
 	if mustClose {
 		defer f.safeClose()
 	}
-	return f.unprotectedClearRow(rowID)
+	changed, err := f.unprotectedClearRow(rowID)
+	// The change is not in the op log: it is only durable (and may only be
+	// acknowledged) once the requested snapshot has been written.
+	f.unprotectedAwaitSnapshot()
+	return changed, err
 }
 
 func (f *fragment) unprotectedClearRow(rowID uint64) (changed bool, err error) {
